@@ -101,6 +101,7 @@ func RemoveSlice
 func Fill
   property C12
   ensures[all] forall k :: 0 <= k && k < len(slice) ==> slice[k] == value
+  ensures[allpos] forall p :: {at(slice, p)} inrange(slice, p) ==> at(slice, p) == value
   assigns elems(slice)
   loop 0 invariant 1 <= i
   loop 0 invariant forall k :: 0 <= k && k < min(i, len(slice)) ==> slice[k] == value
